@@ -139,6 +139,10 @@ func VerifLemma_C02A_CompareZeroSameText() {
 	hi := verifParam("MAXPOS")
 	a := vNondetAnnotation(pn, tn, mn, gn, -1, hi)
 	b := vNondetAnnotation(pn, tn, mn, gn, -1, hi)
+	if verifParam("ENDPOS") == 0 {
+		// quick tier: end positions are not varied
+		a.endLine, a.endColumn, b.endLine, b.endColumn = 0, 0, 0, 0
+	}
 	verifAssume(vPluginFollowsType(a, b))
 	verifAssume(fileAnnotationCompareTo(a, b) == 0)
 	verifCover("equivalent pair")
